@@ -211,3 +211,51 @@ package singlylinkedlist
 //@     invariant (rangeindex >= 0 ==> old(list.nodes[index-1]).next == news[0] && beforeElement == news[rangeindex])
 //@     invariant (rangeindex == 0 - 1 ==> old(list.nodes[index-1]).next == old(list.nodes[index]) && beforeElement == old(list.nodes[index-1]))
 //@     decreases len(values) - rangeindex
+
+// ---- iterator: a cursor over positions -1..n of Seq(list) (C08) ----
+
+//@ pred ItInv(it) := it != nil && it.list != nil && Inv(it.list) && 0 - 1 <= it.index && it.index <= len(Seq(it.list)) && (0 <= it.index && it.index < len(Seq(it.list)) ==> it.element == it.list.nodes[it.index])
+
+//@ func List.Iterator
+//@   requires Inv(list)
+//@   modifies nothing
+//@   ensures [C08 C17 C18] fresh(result) && ItInv(result) && result.list == list && result.index == 0 - 1
+
+//@ func Iterator.Next
+//@   requires ItInv(iterator)
+//@   modifies iterator.index, iterator.element
+//@   ensures [C08 C17] ItInv(iterator) && iterator.index == min(old(iterator.index) + 1, len(Seq(iterator.list)))
+//@   ensures [C08] result == (0 <= iterator.index && iterator.index < len(Seq(iterator.list)))
+
+//@ func Iterator.Value
+//@   requires ItInv(iterator) && 0 <= iterator.index && iterator.index < len(Seq(iterator.list))
+//@   modifies nothing
+//@   ensures [C08 C17 C18] result == Seq(iterator.list)[iterator.index]
+
+//@ func Iterator.Index
+//@   requires ItInv(iterator)
+//@   modifies nothing
+//@   ensures [C08 C17 C18] result == iterator.index
+
+//@ func Iterator.Begin
+//@   requires ItInv(iterator)
+//@   modifies iterator.index, iterator.element
+//@   ensures [C08 C17] ItInv(iterator) && iterator.index == 0 - 1
+
+//@ func Iterator.First
+//@   requires ItInv(iterator)
+//@   modifies iterator.index, iterator.element
+//@   ensures [C08 C17] ItInv(iterator) && iterator.index == 0 && result == (len(Seq(iterator.list)) > 0)
+
+//@ func Iterator.NextTo
+//@   requires ItInv(iterator) && f != nil
+//@   modifies iterator.index, iterator.element
+//@   ensures [C08 C17] ItInv(iterator)
+//@   ensures [C08] found: result ==> old(iterator.index) < iterator.index && iterator.index < len(Seq(iterator.list)) && f(iterator.index, Seq(iterator.list)[iterator.index])
+//@     && (forall j :: old(iterator.index) < j && j < iterator.index ==> !f(j, Seq(iterator.list)[j]))
+//@   ensures [C08] notfound: !result ==> iterator.index == len(Seq(iterator.list)) && (forall j :: old(iterator.index) < j && j < len(Seq(iterator.list)) ==> !f(j, Seq(iterator.list)[j]))
+//@   loop 1:
+//@     invariant ItInv(iterator) && old(iterator.index) <= iterator.index
+//@     invariant forall j :: old(iterator.index) < j && j <= iterator.index && j < len(Seq(iterator.list)) ==> !f(j, Seq(iterator.list)[j])
+//@     decreases len(Seq(iterator.list)) - iterator.index
+
